@@ -175,7 +175,9 @@ func checkC05(c *harness.Check) {
 	}
 	add(c05job{"k7/p7/P7/8/8/7p/7P/7K w - - 100 70", 3, nil, -1, false, "clock already at limit"})
 	add(c05job{corpus.Initial, c.Pick(8, 10), officersOnly(ref.N), -1, false, "start position knight shuffle"})
-	add(c05job{corpus.Initial, c.Pick(8, 9), func(g *ref.Game, m ref.Move) bool { return m.Piece == ref.N && (m.From == 6 || m.To == 6 || m.From == 62 || m.To == 62) }, 4, false, "start position knight shuffle, forked at 4"})
+	add(c05job{corpus.Initial, c.Pick(8, 9), func(g *ref.Game, m ref.Move) bool {
+		return m.Piece == ref.N && (m.From == 6 || m.To == 6 || m.From == 62 || m.To == 62)
+	}, 4, false, "start position knight shuffle, forked at 4"})
 	backRank := func(g *ref.Game, m ref.Move) bool {
 		return (m.Piece == ref.K || m.Piece == ref.R) && m.Captured == 0 && m.From/8 == m.To/8
 	}
@@ -183,7 +185,9 @@ func checkC05(c *harness.Check) {
 	add(c05job{"r3k2r/8/8/8/8/8/8/R3K2R w KQkq - 0 1", 3, officersOnly(ref.K, ref.R), -1, false, "castling corners, all king and rook moves"})
 	add(c05job{"r3k3/8/8/8/8/8/8/4K2R w Kq - 0 1", c.Pick(8, 9), backRank, -1, false, "rights change between repeats"})
 	add(c05job{"4k3/8/8/8/8/8/8/R3K2R w KQ - 10 20", c.Pick(6, 7), backRank, -1, false, "castling and the clock"})
-	add(c05job{"rnbqkbnr/ppp1pppp/8/8/3pP3/8/PPPP1PPP/RNBQKBNR b KQkq e3 0 3", c.Pick(8, 9), func(g *ref.Game, m ref.Move) bool { return m.Piece == ref.N && (m.From == 6 || m.To == 6 || m.From == 62 || m.To == 62) }, -1, false, "e.p. target distinguishes the first occurrence"})
+	add(c05job{"rnbqkbnr/ppp1pppp/8/8/3pP3/8/PPPP1PPP/RNBQKBNR b KQkq e3 0 3", c.Pick(8, 9), func(g *ref.Game, m ref.Move) bool {
+		return m.Piece == ref.N && (m.From == 6 || m.To == 6 || m.From == 62 || m.To == 62)
+	}, -1, false, "e.p. target distinguishes the first occurrence"})
 
 	// (d) material roots: depth-2 walks (captures and under-promotions at ply 1 and 2)
 	material := []string{
